@@ -56,6 +56,18 @@ SEEDS = {
  'C09-4': dict(f='c09_seed4_empty_epoch.rs', **integ('contracts/liquidity_hub/fee_collector', 'fee_collector', 'c09_seed4_empty_epoch.rs')),
  'C13-3': dict(f='seeded_c13_3_claim_pays_as_quoted.rs', **integ(PN_D + '/incentive', 'incentive', 'seeded_c13_3_claim_pays_as_quoted.rs')),
  'C13-4': dict(f='seeded_c13_4_expand_for_receiver_weights.rs', **integ(PN_D + '/incentive', 'incentive', 'seeded_c13_4_expand_for_receiver_weights.rs')),
+ 'C04-3': dict(f='seeded3_deposit_after_fee_collection.rs', **integ(PN_D + '/stableswap_3pool', 'stableswap-3pool', 'seeded3_deposit_after_fee_collection.rs')),
+ 'C04-4': dict(f='seeded4_collect_fee_at_threshold.rs', **integ(PN_D + '/stableswap_3pool', 'stableswap-3pool', 'seeded4_collect_fee_at_threshold.rs')),
+ 'C05-3': dict(f='seeded_c05_3.rs', **integ('contracts/liquidity_hub/vault-network/vault', 'vault', 'seeded_c05_3.rs')),
+ 'C05-4': dict(f='seeded_c05_4.rs', **integ('contracts/liquidity_hub/vault-network/vault', 'vault', 'seeded_c05_4.rs')),
+ 'C06-3': dict(f='seed3_router_burn_fee.rs', **integ('contracts/liquidity_hub/vault-network/vault_router', 'vault_router', 'seed3_router_burn_fee.rs')),
+ 'C06-4': dict(f='seed4_accrued_fees_loan.rs', **integ('contracts/liquidity_hub/vault-network/vault', 'vault', 'seed4_accrued_fees_loan.rs')),
+ 'C10-3': dict(f='c10_seed3_failed_aggregation.rs', **integ('contracts/liquidity_hub/fee_collector', 'fee_collector', 'c10_seed3_failed_aggregation.rs')),
+ 'C10-4': dict(f='c10_seed4_take_rate_large_balance.rs', **integ('contracts/liquidity_hub/fee_collector', 'fee_collector', 'c10_seed4_take_rate_large_balance.rs')),
+ 'C11-3': dict(f='c11_seed3_demo.rs', **integ(PN_D + '/frontend_helper', 'frontend-helper', 'c11_seed3_demo.rs')),
+ 'C11-4': dict(f='c11_seed4_demo.rs', **integ(PN_D + '/incentive', 'incentive', 'c11_seed4_demo.rs')),
+ 'C12-3': dict(f='seed3_demo.rs', **integ(PN_D + '/incentive', 'incentive', 'seed3_demo.rs')),
+ 'C12-4': dict(f='seed4_demo.rs', **integ(PN_D + '/incentive', 'incentive', 'seed4_demo.rs')),
 }
 try: SEEDS.update(json.load(open(V + '/seeded/extra_seeds.json')))
 except Exception: pass
@@ -131,8 +143,47 @@ def run(sid, checks):
         m = json.load(open(mp)); m.setdefault('checks', {}).update(res); json.dump(m, open(mp, 'w'), indent=1)
 
 
-EXTRA = {'C07-1': ['C05', 'C06'], 'C07-2': ['C04'], 'C14-2': ['C04'], 'C18-2': ['C04'], 'C16-2': ['C06'], 'C11-1': ['C13'], 'C17-1': ['C18'], 'C01-2': ['C07'], 'C01-1': ['C02'], 'C05-1': ['C06'], 'C05-2': ['C06', 'C07'],
+EXTRA = {'C04-3': ['C07'], 'C04-4': ['C07'], 'C05-3': [], 'C05-4': ['C06'], 'C06-3': [], 'C06-4': ['C05'], 'C07-1': ['C05', 'C06'], 'C07-2': ['C04'], 'C14-2': ['C04'], 'C18-2': ['C04'], 'C16-2': ['C06'], 'C11-1': ['C13'], 'C17-1': ['C18'], 'C01-2': ['C07'], 'C01-1': ['C02'], 'C05-1': ['C06'], 'C05-2': ['C06', 'C07'],
          'C06-1': ['C05'], 'C06-2': ['C05'], 'C03-1': ['C14'], 'C15-2': ['C14']}
+
+
+NOTES = {
+ 'C01-2': 'first masked by a too coarse C07 carve-out: carve-outs were sharpened to the exact known behaviour',
+ 'C05-1': 'missed by C05 at first: two-step flash_loan -> AfterTrade obligation added',
+ 'C05-2': 'first run inconclusive: checked_div_floor model added',
+ 'C09-1': 'missed at first: pre-states with an already expired epoch added',
+ 'C13-2': 'missed at first: gap configuration added',
+ 'C04-2': 'missed at first: exact interpolated start of a re-ramp + factor-of-effective-amp obligations added',
+ 'C07-2': 'missed at first (no trio part): c07_trio + instantiate ledger-shape obligations added',
+ 'C11-1': 'missed at first: per-user unique-duration invariant added to open/expand',
+ 'C12-2': 'missed at first: expansion of an already expanded flow (history entry for any epoch <= next) added',
+ 'C14-2': 'missed by C14 at first (caught by C04): c14_trio differential with native confirmation built',
+ 'C15-2': 'missed at first: "every accepted swap went through the slippage check" obligation (spy on the real kernel) added',
+ 'C16-2': 'missed by C16 at first (C06 had it): vault-router NextLoan obligations now run under C16 too',
+ 'C17-1': 'missed at first: c17_trio "the stored switches are what the operator sent" (alone and with every other option) added',
+ 'C18-2': 'missed by C18 at first (caught by C04): the trio ramp bounds now run under C18 too',
+ 'C19-1': 'missed at first: two-hop route with a first hop returning any amount (0 included) added',
+ 'C19-2': 'missed at first: trio registry histories over all permutations added (+ byte-slice comparison / slice::swap models)',
+ 'C01-3': 'first run inconclusive: Vec -> [T; N] try_into model added',
+ 'C01-4': 'missed at first: direct WithdrawLiquidity{} on a cw20-LP pool added',
+ 'C08-4': 'missed at first: bond with an extra coin attached added',
+ 'C09-4': 'missed at first: zero-fee epoch inside the grace window added',
+ 'C13-4': 'missed at first: receiver-directed open / expand weight steps added',
+ 'C03-1': 'C03 did not exist yet: built (swap.args)', 'C03-2': 'C03 did not exist yet: built (deposit.args / deposit.mint with native confirmation)',
+}
+
+
+def mdtable():
+    rows = ['| seed | change (agent\'s summary, shortened) | needs to manifest | caught by (quick tier, /repo HEAD) | note |', '|---|---|---|---|---|']
+    def short(t, n):
+        t = ' '.join(str(t or '').split()); return t if len(t) <= n else t[:n - 1] + '…'
+    for d in sorted(glob.glob(V + '/seeded/*/meta.json')):
+        m = json.load(open(d))
+        caught = ['%s `%s`' % (c, ', '.join(o.split('.', 1)[1] if '.' in o else o for o in r['obligations'][:2])) for c, r in m.get('checks', {}).items() if r['exit'] == 1]
+        other = ['%s exit %d' % (c, r['exit']) for c, r in m.get('checks', {}).items() if r['exit'] not in (0, 1)]
+        rows.append('| %s | %s | %s | %s | %s |' % (m['id'], short(m.get('summary'), 170).replace('|', '/'), short(m.get('needs_to_manifest'), 150).replace('|', '/'),
+                                                 '; '.join(caught + other) or '**not caught**', NOTES.get(m['id'], '')))
+    return '\n'.join(rows)
 
 
 def runall(only=None):
@@ -145,6 +196,7 @@ def runall(only=None):
 if __name__ == '__main__':
     if sys.argv[1] == 'confirm': confirm(sys.argv[2])
     elif sys.argv[1] == 'run': run(sys.argv[2], sys.argv[3:])
+    elif sys.argv[1] == 'mdtable': print(mdtable())
     elif sys.argv[1] == 'runall': runall(sys.argv[2:] or None)
     elif sys.argv[1] == 'table':
         for d in sorted(glob.glob(V + '/seeded/*/meta.json')):
